@@ -7,7 +7,7 @@
 (* <<hi, lo, e>> where "exactly" is judged); the composition matrix is an  *)
 (* integer matrix, so its rank is decided here (Lin!IRank), not in Python. *)
 (*                                                                         *)
-(*  state events  ev in {construct, fit, append, extend, pop}:             *)
+(*  state events  ev in {construct, fit, append, extend, insert, pop}:     *)
 (*     A     composition matrix of the CURRENT references over `desc`      *)
 (*     desc  the descriptors occurring in the current references (sorted)  *)
 (*     keys, off   the offset dictionary the object holds (sorted by key)  *)
@@ -36,8 +36,8 @@ VARIABLES l, st
 
 Chk(ok, name) == IF ok THEN {} ELSE {name}
 SetOf(s) == {s[i] : i \in 1..Len(s)}
-IsEdit(e) == e.ev \in {"append", "extend", "pop"}
-IsState(e) == e.ev \in {"construct", "fit", "append", "extend", "pop"}
+IsEdit(e) == e.ev \in {"append", "extend", "insert", "pop"}
+IsState(e) == e.ev \in {"construct", "fit", "append", "extend", "insert", "pop"}
 
 \* ---- fit clauses on a state event
 NRefs(e) == Len(e.A)
